@@ -3,6 +3,8 @@
     quinn-proto/src/connection/spaces.rs by the correspondence check on every run). *)
 From QV Require Import Lib.Tac Lib.Corr Model.Dedup Proofs.DedupProofs gen.Constants.
 From QV Require Import Model.PacketNumber Model.PktAccept Proofs.PktAcceptProofs.
+From QV Require Model.CidQueue Proofs.CidQueueProofs Proofs.CidQueueToken.
+From Coq Require Import List.
 Open Scope Z_scope.
 
 (** The model's window constants are the ones of the compiled crate. *)
@@ -140,3 +142,23 @@ Example C04_dedup_query_example :
   smallest_missing (Dedup.mk (2 ^ 103 + 1) 205) 3 100 = Some (Some 76) /\
   smallest_missing (Dedup.mk (2 ^ 103 + 1) 205) 203 204 = Some None.
 Proof. vm_compute. repeat split; reflexivity. Qed.
+
+(** * Stateless reset tokens follow the connection ID in use (cid_queue.rs).
+    "...a stateless reset carrying exactly the token the peer issued for the connection ID in
+    use": whenever [CidQueue::insert] (NEW_CONNECTION_ID with retire_prior_to) or
+    [CidQueue::next] moves the active remote CID, the reset token it hands to the endpoint
+    (which then replaces the token it matches incoming datagrams against) is the token issued
+    with the CID that is active AFTER the call — for every handshake-time sequence of
+    [update_initial_cid] followed by every sequence of inserts and nexts. *)
+Theorem C04_reset_token_follows_active_cid : forall id0 pre post s outs,
+  Forall CidQueueProofs.upd_op pre -> Forall CidQueueProofs.main_op post ->
+  CidQueue.run_ops CID_QUEUE_LEN (CidQueue.new CID_QUEUE_LEN id0) (pre ++ post) = Some (s, outs) ->
+  Forall2 CidQueueToken.tok_ok (pre ++ post) outs.
+Proof. exact (CidQueueToken.cidqueue_token_lemma CID_QUEUE_LEN eq_refl). Qed.
+Print Assumptions C04_reset_token_follows_active_cid.
+
+(** non-vacuity: the second insert retires sequence numbers 0..2; CID 7 (sequence 2) becomes
+    active and its token (7) is the one reported *)
+Example C04_reset_token_example :
+  CidQueue.run [[1; 2; 0; 7]; [1; 3; 2; 8]; [2]] = [[0; 0; 0]; [2; 7; 1; 0; 2; 7]; [3; 8; 1; 8; 2; 3]].
+Proof. vm_compute. reflexivity. Qed.
